@@ -341,7 +341,7 @@ class Interp:
                     if self._matches(c.get("ErrorEquals") or [], e):
                         if len(e.names) != 1:
                             raise Unspec("caught error with an ambiguous name")
-                        err_out = {"Error": e.name, "Cause": e.cause}
+                        err_out = {"Error": e.name, "Cause": ANY}    # Cause texts are implementation-defined
                         out = self.result_path(c, raw, err_out, t_fail)
                         trace.append(("caught", name, e.name))
                         return out, c["Next"], t_fail
@@ -399,7 +399,9 @@ class Interp:
                 self.ambiguous_failure = True
             i, r = cands[self.choose_failure([c[0] for c in cands]) % len(cands)]
             e = r[1]
-            e2 = StateError(e.names, cause=e.cause, t=tmin, exact_cause=e.exact_cause)
+            # a Fail state's Cause that travels through a Parallel/Map may be decorated by the interpreter:
+            # it must still be contained in the reported cause
+            e2 = StateError(e.names, cause=e.cause, t=tmin, exact_cause="contains" if e.exact_cause else False)
             e2.failed_branches = [c[0] for c in cands]
             e2.all_failed = [i for i, _ in failures]
             raise e2
